@@ -108,7 +108,9 @@ class DHTDiscoveryCommunity(DHTCommunity):
         for node in nodes:
             if node.id in self.tokens:
                 cache = Request(self, "store-peer", node, [key])
-                self.request_cache.add(cache)
+                if self.request_cache.add(cache) is None:
+                    # The request cache refused the request (we are shutting down): don't send what we can't answer.
+                    continue
                 futures.append(cache.future)
                 self.ez_send(node, StorePeerRequestPayload(cache.number, self.tokens[node.id][1], key))
             else:
@@ -158,7 +160,9 @@ class DHTDiscoveryCommunity(DHTCommunity):
         futures = []
         for node in nodes:
             cache = Request(self, "connect-peer", node)
-            self.request_cache.add(cache)
+            if self.request_cache.add(cache) is None:
+                # The request cache refused the request (we are shutting down): don't send what we can't answer.
+                continue
             futures.append(cache.future)
             self.ez_send(node, ConnectPeerRequestPayload(cache.number, self.my_estimated_lan, key))
 
